@@ -71,10 +71,14 @@ func (id ID) ExtractPublicKey() (crypto.PubKey, error) {
 }
 
 // IDFromBytes casts a byte slice to the ID type and validates that
-// the value is a well-formed multihash.
+// the value is a well-formed IDENTITY multihash (the only kind a peer ID uses).
 func IDFromBytes(b []byte) (ID, error) {
-	if _, _, err := decodeMultihash(b); err != nil {
+	code, _, err := decodeMultihash(b)
+	if err != nil {
 		return "", err
+	}
+	if code != mhIdentity {
+		return "", ErrNoPublicKey
 	}
 	return ID(b), nil
 }
